@@ -571,6 +571,11 @@ void SPxMainSM<R>::FixVariablePS::execute(VectorBase<R>& x, VectorBase<R>& y, Ve
 
       cStatus[m_j] = EQrel(m_val, m_lower, this->epsilon()) ? SPxSolverBase<R>::ON_LOWER : (EQrel(m_val,
                      m_upper, this->epsilon()) ? SPxSolverBase<R>::ON_UPPER : SPxSolverBase<R>::ZERO);
+
+      // bounds that differ only within the tolerance are both met by the value (that is why the
+      // variable was fixed); the sign of the reduced cost tells which of them is the binding one
+      if(EQrel(m_lower, m_upper, this->feastol()))
+         cStatus[m_j] = (r[m_j] < 0) ? SPxSolverBase<R>::ON_UPPER : SPxSolverBase<R>::ON_LOWER;
    }
 
 #ifdef SOPLEX_CHECK_BASIS_DIM
